@@ -5,6 +5,20 @@
   (paths ↦ bytes) in PostgreSQL's REAL catalog layouts (12–13, 14–15, 16; DESIGN.md section 3), and
   `expectedDump`, the direct definition of what the property text says a dump must contain.
   Knows nothing about the Go code.
+
+  Where PostgreSQL's notion and pgread's differ the Spec takes PostgreSQL's (remediation R6): a template database is one
+  whose `datistemplate` is set (not one whose name starts with `template`); the value of an inline-compressed or
+  out-of-line (TOASTed) datum is the ORIGINAL value (`DbContent.detoast`), not the stored bytes / a placeholder; a heap is
+  all its segment files (`Cluster.segPages`) wherever its tablespace puts them (`ClassRow.tblspc`).  The open findings
+  C01-TPL, A02, C01-SEG, C01-TBLSPC of fixes/cluster/known_findings.json are exactly the clusters on which pgread's
+  answer differs; the theorems of Props/C01.lean carry them as explicit hypotheses (`TemplatesByName`, `A02Free`,
+  `Cluster.Plain`).
+  Interpretations that remain (the property text leaves them open and they are stated in the claim): "ordinary user
+  table" = relkind `r` with a relfilenode of its own (relfilenode 0 with relkind `r` is a MAPPED SYSTEM CATALOG — pg_class,
+  pg_attribute, pg_type, pg_proc …, located through pg_filenode.map — never a user table); the "system-table filter" is the
+  documented `SkipSystemTables` = "skip pg_* tables" (name prefix); a dropped column keeps its pg_attribute row and is
+  listed (type id 0); the case-insensitive table filter folds ASCII letters only (`lowerB`): where Go's Unicode folding
+  differs the Spec is silent (`Model.GoCase.FilterStable` hypotheses).
 -/
 import PgVerif.Basic.Canon
 import PgVerif.Spec.Heap
@@ -67,6 +81,7 @@ def HeapOf.live {α} (h : HeapOf α) : List α := (h.versions.filter fun s => li
 structure DbRow where
   oid : Nat
   name : Bytes
+  /-- pg_database.datistemplate -/
   isTemplate : Bool := false
   allowConn : Bool := true
 deriving Repr, Inhabited, DecidableEq
@@ -83,6 +98,9 @@ structure ClassRow where
   tuples : Nat := 0     -- reltuples as float4 bits
   hasIndex : Bool := false
   persistence : Nat := 112   -- 'p'
+  /-- reltablespace: 0 = the database's default tablespace (files under `base/<db>/`), else the oid of a tablespace
+  (files under `pg_tblspc/<oid>/PG_<major>_<catversion>/<db>/`) -/
+  tblspc : Nat := 0
 deriving Repr, Inhabited, DecidableEq
 
 structure AttrRow where
@@ -109,12 +127,20 @@ structure DbContent where
   heaps : List (Nat × List (List RowV))
   /-- files of other relations (indexes, sequences, TOAST …) and raw oddities, by filenode -/
   raws : List (Nat × Bytes)
+  /-- the ORIGINAL bytes of every value that is stored compressed in line (`Datum.compressed`) or out of line in the TOAST
+  relation (`Datum.external`): what PostgreSQL hands to a query after detoasting.  How they follow from the stored bytes
+  (pglz / LZ4, chunk reassembly) is C08's specification (Spec/Pglz, Spec/Lz4, Spec/Toast); here they are data of the cluster -/
+  detoast : List (Datum × Bytes) := []
 deriving Inhabited
 
 structure Cluster where
   pgVersion : Nat                      -- 12 … 16: content of PG_VERSION, selects the catalog layouts
   dbs : HeapOf DbRow
   content : List (Nat × DbContent)     -- by database oid
+  /-- RELSEG_SIZE in pages (`--with-segsize`, 131072 = 1 GiB by default; `--with-segsize-blocks` allows small values): a
+  heap of more pages is split into the files `<filenode>`, `<filenode>.1`, `<filenode>.2` … of that many pages each.
+  0 = heaps are never split (every heap generated here is far below 1 GiB) -/
+  segPages : Nat := 0
 deriving Inhabited
 
 inductive Layout where
@@ -182,7 +208,7 @@ def pgClassCols : List Col :=
 def classVals (r : ClassRow) : List (Option Datum) :=
   [dU32 r.oid, dName r.name, dU32 r.nsp, dU32 (if r.kind = 114 then r.oid + 2 else 0), dU32 0, dU32 10,
    dU32 (if r.kind = 114 ∨ r.kind = 116 ∨ r.kind = 109 then 2 else if r.kind = 105 then 403 else 0),
-   dU32 r.filenode, dU32 0, dI32 r.pages, dU32 r.tuples, dI32 0,
+   dU32 r.filenode, dU32 r.tblspc, dI32 r.pages, dU32 r.tuples, dI32 0,
    dU32 r.toast, dBool r.hasIndex, dBool false, dByte r.persistence, dByte r.kind,
    dI16 r.natts, dI16 0, dBool false, dBool false, dBool false,
    dBool false, dBool false, dBool true, dByte (if r.kind = 114 then 100 else 110),
@@ -300,11 +326,55 @@ def dbFiles (l : Layout) (oid : Nat) (d : DbContent) : List (Bytes × Bytes) :=
   d.heaps.map (fun (fn, pages) => (pathBase oid fn, encRowPages (colsOfFilenode d fn) pages)) ++
   d.raws.map (fun (fn, bs) => (pathBase oid fn, bs))
 
-/-- the file tree of the cluster: (relative path, content) -/
+/-! ### segments and tablespaces -/
+
+/-- CATALOG_VERSION_NO of the major versions (the directory `PG_<major>_<catversion>` inside a tablespace) -/
+def catVersion (v : Nat) : Nat :=
+  if v ≥ 16 then 202307071 else if v = 15 then 202209061 else if v = 14 then 202107181 else if v = 13 then 202007201 else 201909212
+
+def pathTblspc (spc ver db fn : Nat) : Bytes :=
+  strBytes "pg_tblspc/" ++ natBytes spc ++ strBytes "/PG_" ++ natBytes ver ++ strBytes "_" ++ natBytes (catVersion ver) ++
+    strBytes "/" ++ natBytes db ++ strBytes "/" ++ natBytes fn
+
+def chunksAux {α} (n : Nat) : Nat → List α → List (List α)
+  | 0, _ => []
+  | f + 1, l => if l.length ≤ n then [l] else l.take n :: chunksAux n f (l.drop n)
+
+/-- a list cut into pieces of `n` elements (the last one shorter; one empty piece for the empty list); `n = 0`: one piece -/
+def chunksOf {α} (n : Nat) (l : List α) : List (List α) := if n = 0 then [l] else chunksAux n (l.length + 1) l
+
+/-- suffix of segment `k` of a relation file: none for the first, `.k` after -/
+def segSuffix (k : Nat) : Bytes := if k = 0 then [] else strBytes "." ++ natBytes k
+
+def numbered {α} : Nat → List α → List (Nat × α)
+  | _, [] => []
+  | k, x :: xs => (k, x) :: numbered (k + 1) xs
+
+/-- where the first segment of the relation file `fn` of database `oid` lies -/
+def heapPath (ver oid : Nat) (d : DbContent) (fn : Nat) : Bytes :=
+  match relOfFilenode d.cls fn with
+  | some r => if r.tblspc = 0 then pathBase oid fn else pathTblspc r.tblspc ver oid fn
+  | none => pathBase oid fn
+
+/-- the segment files of one heap -/
+def heapFiles (ver seg oid : Nat) (d : DbContent) (h : Nat × List (List RowV)) : List (Bytes × Bytes) :=
+  (numbered 0 (chunksOf seg h.2)).map fun (k, pages) =>
+    (heapPath ver oid d h.1 ++ segSuffix k, encRowPages (colsOfFilenode d h.1) pages)
+
+/-- the files of one database as PostgreSQL lays them out: catalogs, every heap in its tablespace and cut into segments,
+other relations -/
+def dbFilesPlaced (ver seg : Nat) (l : Layout) (oid : Nat) (d : DbContent) : List (Bytes × Bytes) :=
+  [(pathBase oid 1259, encHeapOf pgClassCols classVals d.cls),
+   (pathBase oid 1249, encHeapOf (pgAttributeCols l) (attrVals l) d.att)] ++
+  (d.heaps.map (heapFiles ver seg oid d)).flatten ++
+  d.raws.map (fun (fn, bs) => (pathBase oid fn, bs))
+
+/-- the file tree of the cluster: (relative path, content).  (`dbFiles` above is the special case without segments and
+tablespaces: `Proofs.Cluster.dbFilesPlaced_plain`.) -/
 def filesOf (c : Cluster) : List (Bytes × Bytes) :=
   [(strBytes "PG_VERSION", natBytes c.pgVersion ++ [10]),
    (pathGlobal 1262, encHeapOf (pgDatabaseCols c.pgVersion) (dbVals c.pgVersion) c.dbs)] ++
-  (c.content.map fun (oid, d) => dbFiles c.layout oid d).flatten
+  (c.content.map fun (oid, d) => dbFilesPlaced c.pgVersion c.segPages c.layout oid d).flatten
 
 /-- the file system a reader sees: first entry for a path wins -/
 def fsOf (c : Cluster) : Bytes → Option Bytes := fun p => (filesOf c).lookup p
@@ -313,8 +383,15 @@ def fsOf (c : Cluster) : Bytes → Option Bytes := fun p => (filesOf c).lookup p
 
 def isPrefixB (p s : Bytes) : Bool := p.isPrefixOf s
 
-/-- ASCII lower-casing (names in generated clusters are ASCII or caseless UTF-8) -/
+/-- lower-casing of the ASCII letters A–Z: the Spec's definition of "case-insensitive" (PostgreSQL's own identifier folding
+touches ASCII letters only in the encodings where that matters).  pgread follows Go's Unicode tables (É/é, K/K …, and maps
+invalid bytes to U+FFFD); the theorems are stated for the filters and names on which both notions coincide
+(`Model.GoCase.FilterStable`: every ASCII string, and e.g. `été`, `日本`), the families tag the other cases `case=unicode` and
+give no SPEC -/
 def lowerB (s : Bytes) : Bytes := s.map fun b => if 65 ≤ b ∧ b ≤ 90 then b + 32 else b
+
+/-- every byte is ASCII -/
+def asciiB (s : Bytes) : Bool := s.all fun b => b < 128
 
 def containsB (s sub : Bytes) : Bool := (List.range (s.length + 1)).any fun i => sub.isPrefixOf (s.drop i)
 
@@ -326,13 +403,17 @@ def typeNames : List (Nat × String) :=
 
 def typeName (typid : Nat) : Option Bytes := (typeNames.lookup typid).map strBytes
 
-/-- the "template database" of the property: name starts with `template` (interpretation 1) -/
+/-- pgread's heuristic for a template database: the name starts with `template` (NOT the Spec's notion — that is
+`DbRow.isTemplate` = pg_database.datistemplate; open finding C01-TPL is the set of clusters where the two differ) -/
 def isTemplateName (n : Bytes) : Bool := isPrefixB (strBytes "template") n
 
+/-- a non-template database (`datistemplate` false) that passes the database filter -/
 def selectedDb (o : Options) (d : DbRow) : Bool :=
-  !isTemplateName d.name && (o.dbFilter.isEmpty || d.name == o.dbFilter)
+  !d.isTemplate && (o.dbFilter.isEmpty || d.name == o.dbFilter)
 
-/-- ordinary user table passing the system-table and name filters -/
+/-- ordinary user table passing the system-table and name filters: relkind `r` with a relfilenode of its own (relkind `r`
+with relfilenode 0 is a mapped system catalog, not a user table), not `pg_`-prefixed when system tables are skipped (the
+documented meaning of SkipSystemTables), containing the table filter case-insensitively (ASCII letters, see `lowerB`) -/
 def selectedRel (o : Options) (r : ClassRow) : Bool :=
   r.kind == 114 && r.filenode != 0 &&
   !(o.skipSystem && isPrefixB (strBytes "pg_") r.name) &&
@@ -341,8 +422,40 @@ def selectedRel (o : Options) (r : ClassRow) : Bool :=
 /-- the value rendering of a column type is C04's business: a parameter here -/
 abbrev Val := Bytes → Int → M GoVal
 
+/-- the row as C03's view has it: the stored BYTES of every column rendered by `val` — for an inline-compressed value the
+compressed bytes, for an out-of-line one nil (C03 is about which bytes belong to a column).  Equal to `storedRow` when no
+value of the row is compressed or out of line (`storedRow_inline`) -/
 def rowOf (val : Val) (cols : List Col) (r : RowV) : DRow :=
   match rowView val cols r with
+  | .ok ps => ps
+  | .error _ => []
+
+/-- the original bytes of a compressed / out-of-line datum as the cluster records them -/
+def detoastOf (tbl : List (Datum × Bytes)) (d : Datum) : Bytes := (tbl.lookup d).getD []
+
+/-- **what was stored** in a column: the payload of a plain value, the C string, and for a value PostgreSQL compressed in
+line or moved to the TOAST relation the ORIGINAL bytes (`detoast`), rendered by `val` -/
+def storedVal (val : Val) (tbl : List (Datum × Bytes)) (c : Col) : Datum → M GoVal
+  | .fixed bs => val bs c.typid
+  | .short p => val p c.typid
+  | .long p => val p c.typid
+  | .compressed raw => val (detoastOf tbl (.compressed raw)) c.typid
+  | .external body => val (detoastOf tbl (.external body)) c.typid
+  | .cstr p => pure (.str p)
+
+def storedCols (val : Val) (tbl : List (Datum × Bytes)) : List Col → List (Option Datum) → Nat → M (List (Bytes × GoVal))
+  | c :: cs, v :: vs, natts => do
+    let x ← match natts, v with
+      | _ + 1, some d => storedVal val tbl c d
+      | _, _ => pure GoVal.nil
+    let rest ← storedCols val tbl cs vs (natts - 1)
+    pure ((c.name, x) :: rest)
+  | _, _, _ => pure []
+
+/-- the row a correct dump reports: every declared column with the value that was stored (NULL where the value is NULL and
+for columns added after the row was written) -/
+def storedRow (val : Val) (tbl : List (Datum × Bytes)) (cols : List Col) (r : RowV) : DRow :=
+  match storedCols val tbl cols r.vals r.natts with
   | .ok ps => ps
   | .error _ => []
 
@@ -355,7 +468,7 @@ def expectedTable (val : Val) (d : DbContent) (o : Options) (r : ClassRow) : Tab
   let rows : List DRow :=
     if o.listOnly then []
     else match d.heaps.lookup r.filenode with
-      | some pages => (liveRows pages cols).map (rowOf val cols)
+      | some pages => (liveRows pages cols).map (storedRow val d.detoast cols)
       | none => []
   { oid := r.oid, name := r.name, filenode := r.filenode, kind := [114],
     columns := attrs.map fun a => ⟨a.name, (typeName a.typid).getD [], a.typid⟩,
@@ -420,9 +533,16 @@ def lookupName {α} (name : α → Bytes) (l : List α) (n : Bytes) : Option (Op
 def nameOK (n : Bytes) : Prop := 1 ≤ n.length ∧ n.length ≤ 63 ∧ (0 : UInt8) ∉ n
 instance (n : Bytes) : Decidable (nameOK n) := by unfold nameOK; infer_instance
 
+/-- neither compressed in line nor out of line -/
 def inlineDatum : Option Datum → Bool
   | some (.external _) => false
   | some (.compressed _) => false
+  | _ => true
+
+/-- the cluster records the original bytes of the datum if it is compressed or out of line -/
+def detoastKnown (tbl : List (Datum × Bytes)) : Option Datum → Bool
+  | some (.external b) => (tbl.lookup (.external b)).isSome
+  | some (.compressed r) => (tbl.lookup (.compressed r)).isSome
   | _ => true
 
 def pagesFit (pages : List (List Tuple)) : Prop := ∀ ts ∈ pages, pageNeed ts ≤ 8192
@@ -433,7 +553,7 @@ def DbContent.WF (l : Layout) (d : DbContent) : Prop :=
   ((d.cls.live.map (·.oid)).Nodup) ∧
   (((d.cls.live.filter (·.filenode != 0)).map (·.filenode)).Nodup) ∧
   (∀ s ∈ d.cls.versions, nameOK s.val.name ∧ s.val.oid < 2 ^ 32 ∧ 0 < s.val.oid ∧ s.val.filenode < 2 ^ 32 ∧
-      s.val.kind < 256 ∧ s.infomask < 65536) ∧
+      s.val.kind < 256 ∧ s.infomask < 65536 ∧ s.val.tblspc < 2 ^ 32) ∧
   ((d.att.live.map fun a => (a.relid, a.num)).Nodup) ∧
   (∀ s ∈ d.att.versions, nameOK s.val.name ∧ 0 < s.val.relid ∧ s.val.relid < 2 ^ 32 ∧ s.val.typid < 2 ^ 32 ∧
       -32768 ≤ s.val.num ∧ s.val.num < 32768 ∧ -32768 ≤ s.val.len ∧ s.val.len < 32768 ∧ s.infomask < 65536 ∧
@@ -445,7 +565,7 @@ def DbContent.WF (l : Layout) (d : DbContent) : Prop :=
       (∃ r ∈ d.cls.live, r.filenode = h.1) ∧
       let cols := colsOfFilenode d h.1
       ((cols.map (·.name)).Nodup) ∧
-      (∀ pg ∈ h.2, ∀ r ∈ pg, r.WF cols ∧ r.vals.all inlineDatum) ∧
+      (∀ pg ∈ h.2, ∀ r ∈ pg, r.WF cols ∧ r.vals.all (detoastKnown d.detoast)) ∧
       pagesFit (h.2.map fun pg => pg.map (formTuple cols)))
 
 def Cluster.WF (c : Cluster) : Prop :=
@@ -455,5 +575,23 @@ def Cluster.WF (c : Cluster) : Prop :=
   pagesFit (c.dbs.map fun pg => pg.map fun s => formRow (pgDatabaseCols c.pgVersion) (dbVals c.pgVersion s.val) s.infomask) ∧
   ((c.content.map (·.1)).Nodup) ∧
   (∀ p ∈ c.content, p.2.WF c.layout)
+
+/-! ## The classes of the open findings (fixes/cluster/known_findings.json), as predicates on the abstract cluster -/
+
+/-- pgread's name heuristic classifies every live database as `datistemplate` does (finding C01-TPL is its negation) -/
+def TemplatesByName (c : Cluster) : Prop := ∀ db ∈ c.dbs.live, isTemplateName db.name = db.isTemplate
+instance (c : Cluster) : Decidable (TemplatesByName c) := by unfold TemplatesByName; infer_instance
+
+/-- no heap is split into segments and no relation lies outside the default tablespace (findings C01-SEG, C01-TBLSPC are
+the negations of the two parts) -/
+def Cluster.Plain (c : Cluster) : Prop := c.segPages = 0 ∧ ∀ p ∈ c.content, ∀ r ∈ p.2.cls.live, r.tblspc = 0
+instance (c : Cluster) : Decidable c.Plain := by unfold Cluster.Plain; infer_instance
+
+/-- no row of a table that `o` dumps with its rows holds an inline-compressed or out-of-line value (finding A02 is the
+negation) -/
+def A02Free (d : DbContent) (o : Options) : Prop :=
+  o.listOnly = false → ∀ r ∈ d.cls.live, selectedRel o r = true → ∀ pages, d.heaps.lookup r.filenode = some pages →
+    ∀ pg ∈ pages, ∀ row ∈ pg, row.vals.all inlineDatum = true
+instance (d : DbContent) (o : Options) : Decidable (A02Free d o) := by unfold A02Free; infer_instance
 
 end PgVerif.Spec
